@@ -673,7 +673,7 @@ Proof.
   cbv iota in Hfrag. apply andb_true_iff in Hfrag. destruct Hfrag as [Hfrag _]. apply andb_true_iff in Hfrag.
   destruct Hfrag as [Hfrag _]. apply andb_true_iff in Hfrag. destruct Hfrag as [_ Hpg].
   open_node. open_lst. unfold chunk_def. prim.
-  eapply RT_bind; [eapply L_stats; [exact HG | exact Hg | eassumption | apply pguard_mono, Hpg | exact Hf]|].
+  eapply RT_bind; [eapply L_stats; [exact HG | exact Hg | eassumption | exact Hpg | exact Hf]|].
   cbv beta. intros tl p1 Hl_p1 (Q1 & l1 & l2 & n' & -> & Q2 & Q3 & Q4).
   match goal with HCl : ParserComplete2.CTXL ts (l1 ++ l2) mx |- _ => apply CTXL_app in HCl; destruct HCl as [HCl1 HCl2] end.
   destruct Q4 as [->|(x & r & -> & Ht)].
